@@ -1487,10 +1487,24 @@ func runC14(c *Ctx) {
 		}
 		eqv := func(op int, a, b value.Value) byte { return outBool(r.im.opFn[op].Eval(a, b)) }
 		st := funcGen.NewEmptyStack[value.Value]()
-		for _, src := range []string{"[1, 2, 3].top(5)", "[1, 2, 3].top(3)", "[1, 2, 3].top(2)", "[1, 2, 3].top(0)", "[1, 2, 3].skip(1)", "[1, 2, 3].skip(5)", "[1, 2, 3].top(5).map(e -> e)", "[1, 2, 3].top(5).number((i, e) -> e)",
+		libSrcs := []string{"[1, 2, 3].top(5)", "[1, 2, 3].top(3)", "[1, 2, 3].top(2)", "[1, 2, 3].top(0)", "[1, 2, 3].skip(1)", "[1, 2, 3].skip(5)", "[1, 2, 3].top(5).map(e -> e)", "[1, 2, 3].top(5).number((i, e) -> e)",
 			"[1, 2, 3].map(e -> e + a)", "[1, 2, 3].accept(e -> e > a)", "numbers(3)", "numbers(0)", "[1, 2].append(3)", "[1, 2] + [3]", "[1, 2].top(9) + [3].top(9)", "[3, 2, 1].reverse()", "[1, 2, 3].iir(e -> e, (e, p) -> e)",
 			"[1, 2, 3].combine((p, q) -> q)", "[1, 2, 3, 4].combineN(2, w -> w[0]).top(9)", "[[1, 2, 3].top(5), [4].top(2)]", "[1, 1, 2].compact((p, q) -> p = q)", "[1, 2].cross([3], (p, q) -> p)", "[2, 1].order(e -> e).top(7)",
-			"[1, 2, 3].skip(1).top(9).skip(0)", "[1, 2, 3].merge([].top(4), (p, q) -> p < q)"} {
+			"[1, 2, 3].skip(1).top(9).skip(0)", "[1, 2, 3].merge([].top(4), (p, q) -> p < q)"}
+		// binary constructions over operands of every size-knowledge class (literal, evaluated, lazy with a known size, lazy with an
+		// unknown size, empty): what a list claims about its size before it is evaluated must not decide equality (round-5 seed
+		// C14-13: `+` added the "unknown" sentinel -1 like a size, `=` compared the claimed sizes first)
+		operandCls := []string{"[1, 2, 3]", "[]", "[4]", "[1, 2, 3].eval()", "numbers(3)", "[1, 2, 3].map(e -> e + a)", "[1, 2, 3].accept(e -> e > a)", "[1, 2, 3].accept(e -> e > 1)",
+			"[5, 1, 2].skip(1)", "[1, 2, 3].top(2)", "[1, 1, 2].compact((p, q) -> p = q)", "[1, 2].append(3)", "[].accept(e -> true)"}
+		for _, oa := range operandCls {
+			for _, ob := range operandCls {
+				libSrcs = append(libSrcs, "("+oa+") + ("+ob+")")
+				if strings.Contains(oa, ".") && strings.Contains(ob, ".") {
+					libSrcs = append(libSrcs, "("+oa+").merge("+ob+", (p, q) -> p < q)", "("+oa+").cross("+ob+", (p, q) -> p * 10 + q)", "(("+oa+") + ("+ob+")).map(e -> e)", "[("+oa+") + ("+ob+"), "+ob+"]")
+				}
+			}
+		}
+		for _, src := range libSrcs {
 			f := gen(src)
 			fresh := func() value.Value {
 				v, err := f.Eval(value.Int(0))
